@@ -271,14 +271,14 @@ class Equation:
         """
         Return a list of ranks in the tensor
         """
+        # The ranks in the order they are written
         str_ranks = []
-        for ijust in ranks.find_data("ijust"):
-            rank = ParseUtils.next_str(ijust).upper()
-            str_ranks.append(rank)
-
-        for itimes in ranks.find_data("itimes"):
-            rank = str(itimes.children[1]).upper()
-            str_ranks.append(rank)
+        for iplus in ranks.children:
+            for iterm in iplus.children:
+                if iterm.data == "ijust":
+                    str_ranks.append(ParseUtils.next_str(iterm).upper())
+                else:
+                    str_ranks.append(str(iterm.children[1]).upper())
 
         return str_ranks
 
